@@ -114,6 +114,8 @@ def _root(c):
             big.save_fil(p)
             fr = stg.Frame(waterfall=Waterfall(p, t_start=1, t_stop=m + 1))
             fr.data = np.array(fr.data)
+            # the selection starts one integration into the file: that is the frame's start time
+            fr._c03_t0_expected = (big.t_start + 1 * float(g['dt']), float(g['dt']))
         finally:
             _rm(p)
         return fr
@@ -547,6 +549,11 @@ def _visit(c, hist, V, cnt, fmt_orders):
 def _replay(c, hist, V):
     _own_clock()
     fr = _root(c)
+    exp = getattr(fr, '_c03_t0_expected', None)
+    if exp is not None and not hist and abs(fr.t_start - exp[0]) > 1e-3 * exp[1]:
+        V('Frame.__init__(waterfall=Waterfall)', 'time_selection_start',
+          'frame built from Waterfall(file, t_start=1, ...) starts at %r; the first selected integration of the file is at %r (dt=%r)'
+          % (fr.t_start, exp[0], exp[1]))
     for k, op in enumerate(hist):
         try:
             fr = _apply(fr, op)
